@@ -13,7 +13,7 @@ func vDecodeLens() []int {
 	if vtier() == 0 {
 		return []int{0, 11, 12, 15, 16, 18, 20, 24}
 	}
-	return []int{0, 3, 11, 12, 13, 15, 16, 17, 18, 19, 20, 22, 24, 28, 32}
+	return []int{0, 3, 11, 12, 13, 15, 16, 17, 18, 19, 20, 22, 24, 28}
 }
 
 func vh_C03_L1_decode() {
@@ -57,9 +57,15 @@ func vh_C03_L1_decode_each_chunk_type() {
 	vbound(24)
 	t := vAllChunkTypes[vPick(len(vAllChunkTypes))]
 	maxLen := 21
+	if vtier() > 0 {
+		maxLen = 41
+	}
 	switch t {
 	case ctAbort, ctError, ctReconfig:
 		maxLen = 13 // nested cause / parameter lists: every further word multiplies the paths
+		if vtier() > 0 {
+			maxLen = 17
+		}
 	}
 	vl := vPick(maxLen)
 	n := packetHeaderSize + chunkHeaderSize + vl + getPadding(vl)
@@ -98,7 +104,7 @@ func vh_C03_L2_arbitrary_packet_any_state() {
 	a.setState(uint32(vPick(8)))
 	lens := []int{16, 20}
 	if vtier() > 0 {
-		lens = []int{12, 16, 20, 24, 28}
+		lens = []int{12, 16, 20, 24}
 	}
 	n := lens[vPick(len(lens))]
 	raw := nondetBytes(n)
